@@ -3,6 +3,7 @@
 its own property (meta.json "property"; R-* seeds: the property of the fix they revert, from
 known_findings.txt) and write seeded/RESULTS.md.  /repo must be clean; it is restored after each seed."""
 import json, os, re, subprocess, sys, glob
+os.environ["VERIF_EVIDENCE_DIR"] = "/verif/.build/seed-evidence"
 V = "/verif"
 def sh(cmd):
     return subprocess.run(cmd, shell=True, capture_output=True, text=True)
